@@ -966,6 +966,186 @@ def rule_r10(repo, run):
         raise AnalysisError("C17.R10: list-valued fields of Declaration not recognised (%s)" % sorted(lists))
 
 
+# separator loops whose grammar allows a trailing separator (C++ accepts `enum E { A, B, }`)
+TRAILING_SEPARATOR_OK = {"Parser.enum_statement": "C++ allows a trailing comma in an enumerator list"}
+
+
+def rule_r11(repo, run):
+    R = run.rule("C17.R11", "incomplete text is rejected where it is read: a separator is followed by an element (no `f(a,)`), "
+                            "`=` is followed by a value, and a declaration that is used by name has one")
+    dm = repo.module("declast")
+    n = 0
+    for q, fn in sorted(dm.functions().items()):
+        for lp in ast.walk(fn):
+            if not (isinstance(lp, ast.While) and isinstance(lp.test, ast.Compare) and len(lp.test.ops) == 1
+                    and isinstance(lp.test.ops[0], ast.NotEq) and str(dm.seg(lp.test.left)) == "self.token.typ"
+                    and pyflow.const_str(lp.test.comparators[0])):
+                continue
+            closer = pyflow.const_str(lp.test.comparators[0])
+            seps = [c for c in ast.walk(lp) if isinstance(c, ast.Call) and (pyflow.call_name(c) or "") == "self.have"
+                    and c.args and pyflow.const_str(c.args[0]) == "COMMA"]
+            if not seps:
+                continue
+            n += 1
+            if q in TRAILING_SEPARATOR_OK:
+                run.ok(R, "declast.%s:separator-loop" % q, sample=dict(exempt=TRAILING_SEPARATOR_OK[q]))
+                continue
+            # after the separator was consumed: some statement tests for the closer and raises, or the loop is left
+            # through an unconditional error (only one element accepted)
+            rejects = False
+            for i in ast.walk(lp):
+                if isinstance(i, ast.If) and ("self.token.typ == '%s'" % closer) in str(dm.seg(i.test)):
+                    if any((pyflow.call_name(c) or "") in ("self.error_msg",) or isinstance(c, ast.Raise) for st in i.body for c in ast.walk(st)):
+                        rejects = True
+            tail = lp.body[-1]
+            if isinstance(tail, ast.Expr) and isinstance(tail.value, ast.Call) and (pyflow.call_name(tail.value) or "") == "self.error_msg":
+                rejects = True
+            run.check(R, "declast.%s:separator-loop" % q, rejects,
+                      "after a `,` the loop goes back to `while self.token.typ != %r`: when the next token is the closer the list "
+                      "ends normally, so `(a,)` / `<T,>` is silently accepted" % closer, dm.loc(lp))
+    run.floor(R, "separator loops of the parser", n, 5)
+    # the value after `=`
+    ini = dm.func("Parser.initializer")
+    chain = [i for i in ini.body if isinstance(i, ast.If)]
+    if len(chain) != 1:
+        raise AnalysisError("C17.R11: if-chain of Parser.initializer not found")
+    last = chain[0]
+    while len(last.orelse) == 1 and isinstance(last.orelse[0], ast.If):
+        last = last.orelse[0]
+    fails = any((pyflow.call_name(c) or "") == "self.error_msg" or isinstance(c, ast.Raise) for st in last.orelse for c in ast.walk(st))
+    # a declarator's name is optional in the grammar (abstract declarators: `void f(int)`); the node kinds that are
+    # *made of* a name - typedefs, variables, struct members - say so before they use it as a string
+    am = repo.module("ast")
+    nn = 0
+    for q, getter in (("NamespaceMixin.add_typedef", "ast.get_name()"), ("VariableNode.__init__", "ast.name")):
+        fn = am.func(q)
+        uses = [x for x in ast.walk(fn) if str(am.seg(x)) == getter and isinstance(x, (ast.Call, ast.Attribute))]
+        if not uses:
+            raise AnalysisError("C17.R11: %s no longer reads %s" % (q, getter))
+        aliases = set([getter])
+        for a in ast.walk(fn):
+            if isinstance(a, ast.Assign) and isinstance(a.targets[0], ast.Name) and str(am.seg(a.value)) == getter:
+                aliases.add(a.targets[0].id)
+        guards = []
+        for i in ast.walk(fn):
+            if isinstance(i, ast.If) and any(isinstance(x, ast.Raise) for st in i.body for x in ast.walk(st)):
+                t = str(am.seg(i.test))
+                if any(t == "%s is None" % al or t == "not %s" % al for al in aliases):
+                    guards.append(i)
+        nn += 1
+        first_use = min(u.lineno for u in uses)
+        run.check(R, "ast.%s:name-required" % q, bool(guards) and min(g.lineno for g in guards) <= first_use + 3,
+                  "%s uses %s as a string (scope + name, .lower()) without rejecting None first: `typedef int;` / "
+                  "`struct S { int; };` / a bare `int` end in TypeError / AttributeError instead of a diagnostic" % (q, getter),
+                  am.loc(fn))
+    run.floor(R, "name-bearing node kinds", nn, 2)
+    run.check(R, "declast.Parser.initializer:no-value", bool(last.orelse) and fails,
+              "when the token after `=` is none of the accepted kinds the initializer is %s: `int x =` and `f(int a = )` are "
+              "accepted as if nothing had been written" % ("returned as None" if last.orelse else "left as the token text"), dm.loc(ini))
+
+
+def _type_guarded(mod, fn, use, var, typename):
+    """some test on the way to `use` (enclosing if-arms or earlier `if ...: raise`) applies isinstance(var, typename)
+    (or hasattr(var, ...) when typename is None)"""
+    tests = [(t, p) for t, p in pyflow.dominating_tests(use, stop=fn)] + [(t, False) for t, p in pyflow.early_exit_guards(fn, use)]
+    for t, pol in tests:
+        for c in ast.walk(t):
+            if isinstance(c, ast.Call) and isinstance(c.func, ast.Name) and c.args and str(mod.seg(c.args[0])) == var:
+                if typename is None and c.func.id == "hasattr":
+                    return True
+                if c.func.id == "isinstance" and len(c.args) == 2 and typename in str(mod.seg(c.args[1])):
+                    return True
+    # normalisation before the use: `if not isinstance(v, str): v = str(v)`
+    for i in ast.walk(fn):
+        if isinstance(i, ast.If) and i.lineno < use.lineno and typename and \
+                ("isinstance(%s, %s)" % (var, typename)) in str(mod.seg(i.test)).replace("(str,)", "str"):
+            if any(isinstance(a, ast.Assign) and pyflow.is_name(a.targets[0], var) for st in i.body for a in ast.walk(st)):
+                return True
+    return False
+
+
+def rule_r12(repo, run):
+    R = run.rule("C17.R12", "values that come straight from the YAML file are used as a string / mapping / container node only "
+                            "after their type was checked; an option with a closed set of values is checked against it; a range "
+                            "check covers the range its message states")
+    am, tm, mm, gm = repo.module("ast"), repo.module("typemap"), repo.module("main"), repo.module("generate")
+    n = 0
+
+    def need(mod, q, pick, var, typename, what):
+        nonlocal n
+        fn = mod.func(q)
+        uses = [x for x in ast.walk(fn) if pick(x)]
+        if not uses:
+            raise AnalysisError("C17.R12: %s: the use of %s is no longer found" % (q, var))
+        for u in uses:
+            n += 1
+            run.check(R, "%s.%s:%s:%s" % (mod.name, q, var, typename or "hasattr"), _type_guarded(mod, fn, u, var, typename),
+                      "%s: a YAML value of another type ends in AttributeError/TypeError inside the generator instead of a "
+                      "diagnostic" % what, mod.loc(u))
+
+    def method_on(var, attr):
+        return lambda x: isinstance(x, ast.Call) and isinstance(x.func, ast.Attribute) and x.func.attr == attr \
+            and isinstance(x.func.value, ast.Name) and x.func.value.id == var
+    need(am, "LibraryNode.__init__", method_on("language", "lower"), "language", "str",
+         "`language.lower()` without isinstance(language, str) (`language: 3`)")
+    need(tm, "Typemap.update", method_on("value", "split"), "value", "str",
+         "`value.split()` on a header field without isinstance(value, str) (`cxx_header:` with no value)")
+    need(mm, "main_with_args", lambda x: isinstance(x, ast.Call) and str(mm.seg(x.func)) == "allinput.update"
+         and x.args and pyflow.is_name(x.args[0], "d"), "d", "dict",
+         "the top level of the input file is merged with allinput.update(d) without isinstance(d, dict) (a file that is a list)")
+    need(am, "add_declarations", lambda x: isinstance(x, ast.Compare) and isinstance(x.ops[0], ast.In)
+         and pyflow.is_name(x.comparators[0], "subnode"), "subnode", "dict",
+         "`'decl' in subnode` on an item of `declarations:` without isinstance(subnode, dict) (`- void foo()`)")
+    need(am, "add_declarations", lambda x: isinstance(x, ast.Call) and str(am.seg(x.func)) == "parent.add_declaration",
+         "decl", "str", "the value of `decl:` is parsed without isinstance(decl, str) (`- decl:` with no value)")
+    need(am, "add_declarations", lambda x: isinstance(x, ast.Call) and str(am.seg(x.func)) == "parent.add_declaration",
+         "parent", None, "`declarations:` below a node that cannot contain declarations (a function) calls add_declaration on it")
+    need(gm, "VerifyAttrs.parse_attrs", lambda x: isinstance(x, ast.Call) and (pyflow.call_name(x) or "").endswith("check_dimension"),
+         "dim", "str", "`attrs: {v: {dimension: 3}}` gives the tokenizer an int (inline +dimension(3) is text)")
+    # closed-set option
+    ci = am.func("ClassNode.__init__")
+    sets = [a for a in ast.walk(ci) if isinstance(a, ast.Assign) and str(am.seg(a.targets[0])) == "self.wrap_as"]
+    checked = [i for i in ast.walk(ci) if isinstance(i, ast.If) and "self.wrap_as" in str(am.seg(i.test)) and " in " in str(am.seg(i.test))
+               and any(isinstance(x, ast.Raise) for st in i.body for x in ast.walk(st))]
+    n += 1
+    run.check(R, "ast.ClassNode.__init__:wrap_as", bool(sets) and bool(checked) and min(c.lineno for c in checked) > max(a.lineno for a in sets),
+              "wrap_as is taken from the options wrap_struct_as / wrap_class_as and never compared with the values the emitters "
+              "dispatch on: `wrap_struct_as: foo` creates a class node no emitter handles (AttributeError: no attribute "
+              "'typemap')", am.loc(ci))
+    # an override that only exists to refuse takes the arguments the callers pass
+    base = am.func("NamespaceMixin.add_namespace")
+    over = am.func("ClassNode.add_namespace")
+    npos = len([a for a in base.args.args if a.arg != "self"]) - len(base.args.defaults)
+    opos = len([a for a in over.args.args if a.arg != "self"])
+    n += 1
+    run.check(R, "ast.ClassNode.add_namespace:signature", opos >= npos or over.args.vararg is not None,
+              "ClassNode.add_namespace replaces NamespaceMixin.add_namespace(name, ...) to refuse namespaces in classes but "
+              "takes %d positional argument(s): the call add_namespace(name) ends in TypeError and the intended message "
+              "is unreachable" % opos, am.loc(over))
+    # stated range
+    k = 0
+    for q, fn in sorted(gm.functions().items()):
+        for r in ast.walk(fn):
+            if not isinstance(r, ast.Raise):
+                continue
+            msg = " ".join(x.value for x in ast.walk(r) if isinstance(x, ast.Constant) and isinstance(x.value, str))
+            m_ = re.search(r"must be (\d+)-(\d+)", msg)
+            if not m_:
+                continue
+            k += 1
+            lo, hi = int(m_.group(1)), int(m_.group(2))
+            t = pyflow.dominating_tests(r, stop=fn)
+            txt = str(gm.seg(t[0][0])) if t else ""
+            has_hi = re.search(r">\s*%d\b|>=\s*%d\b" % (hi, hi + 1), txt) is not None
+            has_lo = re.search(r"<\s*%d\b|<=\s*%d\b" % (lo, lo - 1), txt) is not None
+            run.check(R, "generate.%s:range[%d-%d]" % (q, lo, hi), has_hi and has_lo,
+                      "the message says the value must be %d-%d but the test `%s` checks %s: the other side of the range is "
+                      "accepted silently (+rank(-1))" % (lo, hi, txt, "only the upper bound" if has_hi else "only the lower bound"
+                                                        if has_lo else "neither bound"), gm.loc(r))
+    run.floor(R, "stated ranges", k, 1)
+    run.floor(R, "typed uses of raw YAML values", n, 9)
+
+
 def run(repo, run, tier):
     P = Program(repo)
     rule_r1(repo, run, P)
@@ -978,3 +1158,5 @@ def run(repo, run, tier):
     rule_r8(repo, run)
     rule_r9(repo, run)
     rule_r10(repo, run)
+    rule_r11(repo, run)
+    rule_r12(repo, run)
